@@ -41,6 +41,25 @@ func encState(p *secp256k1.Point) string {
 	return hx(enc)
 }
 
+// operandChanged: an operand that is not the receiver must be, after the
+// call, what it was before.  Judged on what a caller can observe (validity
+// and encodings); a change of the raw projective coordinates alone - an
+// implementation renormalising an operand, say - is only counted.
+func (w *World) operandChanged(was, now *secp256k1.Point) bool {
+	rw, rn := rawOf(was), rawOf(now)
+	if rw == rn {
+		return false
+	}
+	if rw.valid != rn.valid {
+		return true
+	}
+	if rw.valid && encState(was) != encState(now) {
+		return true
+	}
+	w.r.Probe("operand_raw_representation_changed")
+	return false
+}
+
 func (w *World) aliasPattern(c *pointCall) string {
 	if len(c.pargs) > 6 {
 		// long lists: summarise (the full pattern would be a different,
@@ -132,7 +151,8 @@ func (w *World) execPointCall(c *pointCall) {
 	po1 := protect(func() { c.f(fr, fpa, fsa) })
 	enc1 := encState(fr)
 	for i, a := range c.pargs {
-		if rawOf(fpa[i]) != snapRaw[a] {
+		was := snapP[a]
+		if w.operandChanged(&was, fpa[i]) {
 			w.r.Violate("C18", "operand-modified", c.name, w.step, "%s: point operand #%d was modified by the call (fresh receiver, distinct operands)", c.desc, i+1)
 		}
 	}
@@ -177,8 +197,18 @@ func (w *World) execPointCall(c *pointCall) {
 			w.adopt(c.recv, c.name)
 			return
 		}
-		if rawOf(w.points[c.recv]) != snapRaw[c.recv] {
-			w.r.Violate("C18", "computed-before-panic", c.name, w.step, "%s: panicked, but the receiver was written first", c.desc)
+		// "panics instead of computing": after the panic the receiver must
+		// not hold a result.  A receiver that the routine merely invalidated
+		// or wiped before it looked at its operands is not a result (probe
+		// only); a receiver that is usable and reads differently from before
+		// - or has become usable - is.
+		if now := rawOf(w.points[c.recv]); now != snapRaw[c.recv] {
+			was := snapP[c.recv]
+			if now.valid && (!snapRaw[c.recv].valid || encState(w.points[c.recv]) != encState(&was)) {
+				w.r.Violate("C18", "computed-before-panic", c.name, w.step, "%s: panicked, but the receiver holds a result (it was written, and is usable, after the panic)", c.desc)
+			} else {
+				w.r.Probe("receiver_raw_bytes_changed_before_panic")
+			}
 			w.adopt(c.recv, c.name)
 		}
 		return
@@ -198,7 +228,8 @@ func (w *World) execPointCall(c *pointCall) {
 		w.r.Violate("C18", "alias-changes-result", c.name+":"+pat, w.step, "%s: fresh receiver + distinct operands gives %s, the drawn aliasing [%s] gives %s", c.desc, enc1, pat, enc2)
 	}
 	for i, p := range w.points {
-		if i != c.recv && rawOf(p) != snapRaw[i] {
+		was := snapP[i]
+		if i != c.recv && w.operandChanged(&was, p) {
 			w.r.Violate("C18", "operand-modified", c.name, w.step, "%s: point slot %d (not the receiver) changed", c.desc, i)
 		}
 	}
@@ -333,7 +364,7 @@ func (w *World) opObserve() {
 	if name == "Equal" {
 		b = w.pickRelated("b", a)
 	}
-	snapA, snapB := rawOf(w.points[a]), rawOf(w.points[b])
+	wasA, wasB := *w.points[a], *w.points[b]
 	expectPanic := !w.init[a] || (name == "Equal" && !w.init[b])
 	var got string
 	po := protect(func() {
@@ -366,7 +397,7 @@ func (w *World) opObserve() {
 		got = "panic"
 	}
 	w.r.Hist("%d %s -> %s", w.step, desc, got)
-	if rawOf(w.points[a]) != snapA || rawOf(w.points[b]) != snapB {
+	if w.operandChanged(&wasA, w.points[a]) || w.operandChanged(&wasB, w.points[b]) {
 		w.r.Violate("C18", "operand-modified", name, w.step, "%s: a read-only observation modified its operand", desc)
 	}
 	if expectPanic {
